@@ -81,6 +81,7 @@ func c13Tap(r *rig) (frames int, multiFrameWrites bool, err error) {
 			writerSide = sideS
 		}
 		byStream := map[uint32][]c13Frame{}
+		notices := 0
 		for li, l := range r.links {
 			wire := l.Wire(d)
 			recs, rest := vk.SplitTLSRecords(wire)
@@ -93,6 +94,11 @@ func c13Tap(r *rig) (frames int, multiFrameWrites bool, err error) {
 					return 0, false, vk.Violatef("link %d: a message on the wire does not decode under the session key: %v", li, derr)
 				}
 				if f.Closing == closingSession {
+					// the session-closing notice travels as (stream id 0xffffffff, sequence number 0): a second one from
+					// the same endpoint is a second message under the same key and nonce
+					if notices++; notices > 1 {
+						return 0, false, vk.ViolateSig("seq-reuse", "side %d put %d session-closing notices on the wire: they share (stream id %#x, sequence number %d) under one session key (nonce reuse)", writerSide, notices, f.StreamID, f.Seq)
+					}
 					continue
 				}
 				byStream[f.StreamID] = append(byStream[f.StreamID], c13Frame{f.Seq, f.Closing, f.Payload})
@@ -205,6 +211,36 @@ func c13Run(t *testing.T) func(sc rigScenario) (vk.Result, error) {
 		}
 		return res, verr
 	}
+}
+
+// C13 (5) SessionClose: several callers close one session at overlapping times (the inactivity timer, the user's
+// termination, the serving goroutine's error path) while the sender is rate limited, so that the first caller's notice
+// is still waiting for its allowance when the others arrive. Same tap oracle: in particular no second message with the
+// notice's (stream id, sequence number).
+func TestVerif_C13_SessionClose(t *testing.T) {
+	vk.Run(t, "C13", "SessionClose", func(rt *rapid.T) rigScenario {
+		sc := rigScenario{Cfg: genCfg(rt, false)}
+		sc.Cfg.Plain = false
+		sc.Cfg.RxRate, sc.Cfg.TxRate = 1<<30, int64(rapid.SampledFrom([]int{300, 2000, 20000}).Draw(rt, "txrate"))
+		sc.Ops = append(sc.Ops, rigOp{K: "open"}, rigOp{K: "write", Side: sideC, S: 0, N: rapid.IntRange(1, 3000).Draw(rt, "cw")})
+		for c := 0; c < sc.Cfg.NumConn; c++ {
+			sc.Ops = append(sc.Ops, rigOp{K: "deliver", Side: sideC, C: c, Mode: 2})
+		}
+		if rapid.Bool().Draw(rt, "sw") {
+			sc.Ops = append(sc.Ops, rigOp{K: "write", Side: sideS, S: 0, N: rapid.IntRange(1, 600).Draw(rt, "swn")}, rigOp{K: "sleep", D: rapid.SampledFrom([]int{0, 100, 5000, 60000}).Draw(rt, "gap")})
+		}
+		op := rigOp{K: "sclose", Side: sideS}
+		for k, n := 0, rapid.IntRange(1, 3).Draw(rt, "others"); k < n; k++ {
+			op.Par = append(op.Par, rigOp{K: "sclose", Side: sideS})
+		}
+		sc.Ops = append(sc.Ops, op, rigOp{K: "sleep", D: 120000})
+		return sc
+	}, func(sc rigScenario) (vk.Result, error) {
+		res, err := c13Run(t)(sc)
+		res.NonTrivial = true
+		res.Labels = append(res.Labels, "overlapping-session-closes")
+		return res, err
+	})
 }
 
 func TestVerif_C13_Scenarios(t *testing.T) {
